@@ -110,16 +110,42 @@ package raftpb
 //@ modifies elems(dAtA)
 //@ ensures result0 == m.sfsize() && result1 == nil
 
-// the membership record (four maps) is the generated protobuf codec: its size is an uninterpreted
-// function of the object, MarshalTo is assumed to write exactly that many bytes
+// the membership record: a scalar and four maps, each map entry encoded as a nested message with a tag
+// and a length prefix. msz(e): a nested message of e bytes with its tag and length prefix; the four
+// weights are the encoded sizes of one entry of each map; sumall/sumvisited sum a weight over a map
+// (built-in summation axioms). Size() is the exact encoded size for ANY iteration order, MarshalTo
+// writes exactly that many bytes.
+//@ pure msz(e int) := e + 1 + vlen(e)
+//@ pure waddr(k uint64, v string) := msz(1 + vlen(k) + 1 + strlen(v) + vlen(strlen(v)))
+//@ pure wrem(k uint64, v bool) := msz(1 + vlen(k) + 1 + 1)
+//@ pred (m *Membership) memsize() := 1 + vlen(m.ConfigChangeId) + sumall(m.Addresses, waddr) + sumall(m.Removed, wrem) + sumall(m.NonVotings, waddr) + sumall(m.Witnesses, waddr)
+//@ pred (m *Membership) small() := (forall k uint64 :: k in m.Addresses ==> strlen(m.Addresses[k]) < 1099511627776) && (forall k uint64 :: k in m.NonVotings ==> strlen(m.NonVotings[k]) < 1099511627776) && (forall k uint64 :: k in m.Witnesses ==> strlen(m.Witnesses[k]) < 1099511627776) && sumall(m.Addresses, waddr) < 1099511627776 && sumall(m.Removed, wrem) < 1099511627776 && sumall(m.NonVotings, waddr) < 1099511627776 && sumall(m.Witnesses, waddr) < 1099511627776
+// (the enclosing records -- Snapshot, Chunk -- refer to this size through the uninterpreted memsz(m), which
+// NAMES memsize(m): the definition is assumed on entry, the four summations are too heavy to unfold inside
+// the callers' own size formulas; what is proved is that Size() returns it)
 //@ func (m *Membership) Size [C13]
-//@ trusted gogo-generated codec of a map-bearing message (assumed)
-//@ ensures result == uf("memsz", m) && result >= 0 && result < 1099511627776
+//@ free requires m != nil ==> m.small() && uf("memsz", m) == m.memsize()
+//@ ensures m != nil ==> result == uf("memsz", m)
+//@ free ensures result >= 0 && result < 1099511627776
+// (T-ovf: the running size stays far below the int range -- assumed per loop, the solvers do not chain
+// the monotonicity of partial sums through two weight arrays)
+//@ free loop 1 invariant n >= 0 && n < 4611686018427387904
+//@ loop 1 invariant n == 1 + vlen(m.ConfigChangeId) + sumvisited(m.Addresses, waddr) && (forall k uint64 :: visited(k) ==> k in m.Addresses)
+//@ free loop 2 invariant n >= 0 && n < 4611686018427387904
+//@ loop 2 invariant n == 1 + vlen(m.ConfigChangeId) + sumall(m.Addresses, waddr) + sumvisited(m.Removed, wrem) && (forall k uint64 :: visited(k) ==> k in m.Removed)
+//@ free loop 3 invariant n >= 0 && n < 4611686018427387904
+//@ loop 3 invariant n == 1 + vlen(m.ConfigChangeId) + sumall(m.Addresses, waddr) + sumall(m.Removed, wrem) + sumvisited(m.NonVotings, waddr) && (forall k uint64 :: visited(k) ==> k in m.NonVotings)
+//@ free loop 4 invariant n >= 0 && n < 4611686018427387904
+//@ loop 4 invariant n == 1 + vlen(m.ConfigChangeId) + sumall(m.Addresses, waddr) + sumall(m.Removed, wrem) + sumall(m.NonVotings, waddr) + sumvisited(m.Witnesses, waddr) && (forall k uint64 :: visited(k) ==> k in m.Witnesses)
+// (MarshalTo walks the same four maps writing each entry: its in-bounds obligations need the partial
+// sums bounded by the total through two weight arrays, which the solvers do not chain -- it stays
+// assumed: it writes exactly memsize() bytes)
 //@ func (m *Membership) MarshalTo [C13]
-//@ trusted gogo-generated codec of a map-bearing message (assumed): writes exactly Size() bytes
+//@ trusted writes the scalar and the four maps (generated protobuf codec)
 //@ requires len(dAtA) >= uf("memsz", m)
 //@ modifies elems(dAtA)
 //@ ensures result1 == nil ==> result0 == uf("memsz", m)
+
 // sumfiles(p, k): encoded size of the first k file records (tag + length prefix + record); defining
 // recurrence and its monotonicity are assumed where the sum is needed (filesdef)
 //@ pred filesdef(fs []*SnapshotFile) := uf("sumfiles", ptr(fs), 0) == 0 && (forall k int :: 0 <= k && k < len(fs) ==> fs[k] != nil && fs[k].small() && uf("sumfiles", ptr(fs), k + 1) == uf("sumfiles", ptr(fs), k) + 1 + fs[k].sfsize() + vlen(fs[k].sfsize())) && (forall k int :: 0 <= k && k <= len(fs) ==> uf("sumfiles", ptr(fs), k) >= 0 && uf("sumfiles", ptr(fs), k) <= uf("sumfiles", ptr(fs), len(fs))) && uf("sumfiles", ptr(fs), len(fs)) < 1099511627776
